@@ -318,7 +318,7 @@ class FnContract:
     def __init__(self, name, regions=None, nullable=(), logical=None, requires=None, ensures=None, modifies=(), loops=None,
                  inline=False, configs=None, alloc_result=None, escapes=(), defs=None, shape=None, frees=(), ghost_updates=None,
                  abstract=False, pure=False, result_name=None, note=None, allocates=False, replay=True, lemmas=None, params=None, ret=None,
-                 cost=None, quick=None):
+                 cost=None, quick=None, strategy=None, result_ptrs=None):
         self.name = name
         self.regions = dict(regions or {})      # pointer parameter -> 'u8[expr]' | 'u32[16]' | 'struct' | 'cell' | shape object
         self.nullable = set(nullable)
@@ -341,6 +341,8 @@ class FnContract:
             self.params = list(params)     # abstract callee: parameter names
         self.ret = ret
         self.cost = cost      # seconds per configuration (planning hint for the unit splitter)
+        self.result_ptrs = dict(result_ptrs or {})   # struct-returning callee: pointer field of the result -> expression
+        self.strategy = dict(strategy or {})     # '<kind>.<name>' of an obligation -> solver strategy to try first (a hint only)
         self.quick = quick    # names of the configurations verified in tier `quick` (all of them in `thorough`)
         self.lemmas = dict(lemmas or {})    # ghost assertions at every return: proved (locals visible), then assumed for `ensures`
 
